@@ -295,5 +295,16 @@ class SurfaceGroup:
         Returns:
             SurfaceGroup: The surface group created from the dictionary.
         """
-        return cls([Surface.from_dict(surface_data)
-                    for surface_data in data['surfaces']])
+        surfaces = [Surface.from_dict(surface_data)
+                    for surface_data in data['surfaces']]
+        # a medium is one object shared by the two surfaces that bound it,
+        # and by both sides of a mirror (as the surface factory builds it)
+        for prev, surf in zip(surfaces[:-1], surfaces[1:]):
+            pre = surf.material_pre.to_dict()
+            mirror = surf.is_reflective and \
+                surf.material_post.to_dict() == pre
+            if pre == prev.material_post.to_dict():
+                surf.material_pre = prev.material_post
+            if mirror:
+                surf.material_post = surf.material_pre
+        return cls(surfaces)
